@@ -9,6 +9,14 @@ TB = ("trusted base: rustc's MIR construction and Instance resolution for the re
       "mir-opt-level 0, overflow checks on), the fact extractor /verif/driver, std/rpds/arcstr behaving as documented")
 
 CLAIMS = {
+ 'C12': dict(
+   technique="variant-pair table extraction from nested discriminant switches (eq vs cmp agreement) + receiver provenance of rpds *_mut calls + builder/boundary shape rules",
+   text=("Static, structural part: agreement with an association-list/sequence model is value-level and not decided. Decided: which variant "
+         "pairs equal? compares vs which the map/sort ordering orders, and whether the ordering falls back to a constant Equal (violated on "
+         "the pinned tree: two listed known findings, pinned by an existing test); every in-place rpds mutation has a function-local owned "
+         "receiver (collections are values); literal builders insert in source order before popping; relative_index has the exact "
+         "boundaries |i| > len / i >= len."),
+   ref='§3 C12'),
  'C09': dict(
    technique="inter-procedural operator-signature extraction per word (MIR binops, resolved std callees, reified fn items/closures) + dominance of zero tests + provenance of error payloads",
    text=("Static, structural part only: the numerical exactness of results is not decided. Decided for all 33 arith words: no bare/overflow-"
